@@ -426,12 +426,32 @@ func c19CompareQuery(ctx context.Context, o *rt.Obs, local, remote *c19Side, que
 	}
 }
 
+func c19StatusEndpointHasError(url, reqID string) bool {
+	sreq, _ := http.NewRequest("GET", url+"/query/status/"+reqID, nil)
+	sreq.Header.Set("Accept", "application/json")
+	sres, err := http.DefaultClient.Do(sreq)
+	if err != nil {
+		return false
+	}
+	sb, _ := io.ReadAll(sres.Body)
+	sres.Body.Close()
+	var qe api.QueryError
+	return json.Unmarshal(sb, &qe) == nil && qe.Error != ""
+}
+
 // c19Errors: errors direct access reports must reach the remote client.
 func c19Errors(ctx context.Context, o *rt.Obs, local, remote *c19Side) {
 	for _, q := range []string{"from nosuchpool", "from p@nosuchbranch", "from p | where (", "from p | nosuchop"} {
 		_, _, lerr := c19LocalFormatted(ctx, local.l, q, "zson")
-		status, body, _, _ := c19Raw(remote.url, q, api.MediaTypeZSON, false)
+		status, body, reqID, _ := c19Raw(remote.url, q, api.MediaTypeZSON, false)
 		o.Count("error_queries", 1)
+		if lerr != nil && status == 200 && c19StatusEndpointHasError(remote.url, reqID) {
+			// the local error arose while the query ran (a history whose branch refers
+			// to vacuumed objects), not at compile time: for a response that cannot carry
+			// it in band the documented channel is the query status endpoint
+			o.Count("errors_reported_by_status_endpoint", 1)
+			continue
+		}
 		if lerr != nil && status == 200 {
 			o.Violation("error-not-reported-remotely", fmt.Sprintf("%q fails locally (%v) but the service answered 200: %.200q", q, lerr, body))
 		}
@@ -471,17 +491,9 @@ func c19Errors(ctx context.Context, o *rt.Obs, local, remote *c19Side) {
 				continue
 			}
 			// the documented third channel: the query status endpoint
-			sreq, _ := http.NewRequest("GET", remote.url+"/query/status/"+reqID, nil)
-			sreq.Header.Set("Accept", "application/json")
-			sres, err := http.DefaultClient.Do(sreq)
-			if err == nil {
-				sb, _ := io.ReadAll(sres.Body)
-				sres.Body.Close()
-				var qe api.QueryError
-				if json.Unmarshal(sb, &qe) == nil && qe.Error != "" {
-					o.Count("late_errors_reported_by_status_endpoint", 1)
-					continue
-				}
+			if c19StatusEndpointHasError(remote.url, reqID) {
+				o.Count("late_errors_reported_by_status_endpoint", 1)
+				continue
 			}
 			o.Violation("late-error-dropped:"+c19Format(mt), fmt.Sprintf("direct access reports %v for %q after a data object was removed; the service (format %s, ctrl=%v) answered 200 with %d bytes, no in-band error, and the status endpoint reports none", lerr, q, mt, ctrl, len(body)))
 		}
